@@ -18,6 +18,10 @@ ZERO32 = b"\x00" * 32
 MAXTARGET = b"\xff" * 32
 
 
+def _human_stub(b: bytes) -> str:
+    return "<id>"
+
+
 class Env:
     """Everything a harness needs from the repository, with the stubs of the chosen mode installed."""
 
@@ -47,6 +51,14 @@ class Env:
             pymap.install(cstate, bal, cons)
             pyio.install(ser)
             self.Map = pymap.PyMap
+            # hexlify of a symbolic id inside an error/log text realises it value by value: formatting of ids gets a
+            # constant body in symbolic mode (formatting is not the subject of any property)
+            for modname in ("skepticoin.consensus", "skepticoin.coinstate", "skepticoin.datatypes", "skepticoin.signing",
+                            "skepticoin.networking.remote_peer", "skepticoin.networking.manager", "skepticoin.networking.local_peer",
+                            "skepticoin.utils", "skepticoin.mining"):
+                m = sys.modules.get(modname)
+                if m is not None and hasattr(m, "human"):
+                    m.human = _human_stub
         if horizon_off:
             # harness assumption: full validation applies at small heights (the gate itself is C18's subject)
             cons.MAX_KNOWN_HASH_HEIGHT = -1
